@@ -126,6 +126,19 @@ def reconstruct(repo, out_dir, decoy=False):
         ]
     links += ['Link\tVerif/Twin1\tVerif/Alias1', 'Link\tVerif/Twin1\tVerif/Alias2', 'Link\tVerif/Multi\tVerif/AliasM',
               'Link\tVerif/Nowhere\tVerif/Dangling']
+    # policies that become busier in the LAST years of the compiled range (real data has no rule changes after
+    # ~2020): what the compiler computes per year and then takes the maximum of - buffer sizes - then depends on
+    # whether the trailing years are really looked at
+    for tag, yr in (('36', 2036), ('48', 2048)):
+        rules += [
+            'Rule\tVerifL%s\t2001\t%d\t-\tMar\tlastSun\t2:00\t1:00\tD' % (tag, yr - 1),
+            'Rule\tVerifL%s\t2001\t%d\t-\tOct\tlastSun\t2:00\t0\tS' % (tag, yr - 1),
+            'Rule\tVerifL%s\t%d\tmax\t-\tFeb\tSun>=1\t2:00\t1:00\tD' % (tag, yr),
+            'Rule\tVerifL%s\t%d\tmax\t-\tMay\tSun>=1\t2:00\t0\tS' % (tag, yr),
+            'Rule\tVerifL%s\t%d\tmax\t-\tAug\tSun>=1\t2:00\t1:00\tD' % (tag, yr),
+            'Rule\tVerifL%s\t%d\tmax\t-\tNov\tSun>=1\t2:00\t0\tS' % (tag, yr),
+        ]
+        zones += ['Zone\tVerif/Late%s\t4:00\tVerifL%s\tL%%sT' % (tag, tag)]
     if decoy:
         # a DIFFERENT source with the same names: every Zone name gets the eras of the next zone (cyclic), so that
         # anything an earlier compilation remembered per name (sizes, ids, strings) is wrong for the real source
